@@ -309,6 +309,17 @@ class Case:
             self.violate("after construction the hidden game is not the generator's second draw", "draws")
         if self.linear:
             self.lin = M.Linear(env)
+            # the declared interface of the size-aggregated environment: n actions (sizes 0..n-1), observations of length n
+            try:
+                a_n = int(self.lin.action_space.n)
+                o_shape = tuple(self.lin.observation_space.shape)
+            except Exception as e:      # noqa: BLE001
+                a_n, o_shape = f"raised {type(e).__name__}", None
+            if a_n != self.n or o_shape != (self.n,):
+                self.violate(f"the size-aggregated environment does not declare n actions and observations of length n "
+                             f"(action_space.n = {a_n}, observation_space.shape = {o_shape})", "linear-spaces")
+            if len(env.explorable_coalitions) != int(env.action_space.n) or tuple(env.observation_space.shape) != (len(env.explorable_coalitions),):
+                self.violate("the environment does not declare one action / one observation cell per explorable coalition", "spaces")
         self.check_state("new")
 
     # -- observation of the real environment ---------------------------------------------------
